@@ -33,11 +33,21 @@ type Stats struct {
 // and adds every file under overlayDir (mirroring repo-relative package dirs).
 // Returns the overlay.json path.
 func Run(repo, out, rtFile, overlayDir string) (string, Stats, error) {
+	return RunKeyed(repo, repo, out, rtFile, overlayDir)
+}
+
+// RunKeyed instruments the tree at repo but keys the overlay by the
+// corresponding paths under keyRoot (the directory the module path resolves
+// to). With repo != keyRoot every non-test Go file of repo is put into the
+// overlay, so that the build sees the alternative tree as a whole (used to
+// screen patches in scratch worktrees without touching /repo).
+func RunKeyed(repo, keyRoot, out, rtFile, overlayDir string) (string, Stats, error) {
 	var st Stats
 	if err := os.MkdirAll(out, 0o755); err != nil {
 		return "", st, err
 	}
 	repo, _ = filepath.Abs(repo)
+	keyRoot, _ = filepath.Abs(keyRoot)
 	replace := map[string]string{}
 	var dirs []string
 	filepath.Walk(repo, func(p string, fi os.FileInfo, err error) error {
@@ -86,6 +96,9 @@ func Run(repo, out, rtFile, overlayDir string) (string, Stats, error) {
 				rel, _ := filepath.Rel(repo, fnames[i])
 				changed := instrument(fset, f, info, rel, &st)
 				if !changed {
+					if repo != keyRoot {
+						replace[filepath.Join(keyRoot, rel)] = fnames[i]
+					}
 					continue
 				}
 				astutil.AddImport(fset, f, RtImport)
@@ -97,12 +110,12 @@ func Run(repo, out, rtFile, overlayDir string) (string, Stats, error) {
 				if err := os.WriteFile(dst, buf.Bytes(), 0o644); err != nil {
 					return "", st, err
 				}
-				replace[fnames[i]] = dst
+				replace[filepath.Join(keyRoot, rel)] = dst
 				st.Files++
 			}
 		}
 	}
-	replace[filepath.Join(repo, "verifrt", "rt.go")] = rtFile
+	replace[filepath.Join(keyRoot, "verifrt", "rt.go")] = rtFile
 	if overlayDir != "" {
 		overlayDir, _ = filepath.Abs(overlayDir)
 		filepath.Walk(overlayDir, func(p string, fi os.FileInfo, err error) error {
@@ -110,7 +123,7 @@ func Run(repo, out, rtFile, overlayDir string) (string, Stats, error) {
 				return nil
 			}
 			rel, _ := filepath.Rel(overlayDir, p)
-			replace[filepath.Join(repo, rel)] = p
+			replace[filepath.Join(keyRoot, rel)] = p
 			st.Added++
 			return nil
 		})
